@@ -166,15 +166,22 @@ def reorgStep (x : Blk) (st : St) : St :=
 
 /-- the second half of `reorg`: insert the new chain oldest-first (`foldr`: the lists are newest-first as in Go), delete
     the canonical number assignments above the new head (fix 4152cc7), delete the lookups of `deleted \ added`. -/
-def reorgApply (s : St) (oldNumber : Nat) (oldChain newChain : List Blk) : St :=
+def reorgApply (s : St) (fuel : Nat) (oldChain newChain : List Blk) : St :=
   let s1 := newChain.foldr reorgStep s
   let s2 : St :=
     match newChain with
     | [] => s1
-    | top :: _ => { s1 with canon := delCanonAbove s1.canon (oldNumber + 1) (top.number + 1) }
+    | top :: _ => { s1 with canon := delCanonAbove s1.canon (fuel + 1) (top.number + 1) }
   let deleted := oldChain.flatMap (·.txs)
   let added := newChain.flatMap (·.txs)
   { s2 with lookup := delLookups s2.lookup (txDifference deleted added) }
+
+/-- bound for the (unbounded) deletion loop of `reorg`: number entries exist at most up to the height of the header
+    head (which is the block head unless a rewind fell back below its target) -/
+def reorgFuel (s : St) (old : Blk) : Nat :=
+  match s.store s.hhead with
+  | some hh => max old.number hh.number
+  | none => old.number
 
 /-- `BlockChain.reorg(oldBlock, newBlock)`.  The two "reduce whoever is higher" loops are written as two calls of
     `reduce` towards the lower of the two numbers (one of them returns immediately).  `none` = the Go function returns
@@ -189,7 +196,7 @@ def reorg (s : St) (old new : Blk) : Option St :=
     | some (n, nc1) =>
       match walkBoth s.store (m + 1) o n with
       | none => none
-      | some (_, oc2, nc2) => some (reorgApply s old.number (oc1 ++ oc2) (nc1 ++ nc2))
+      | some (_, oc2, nc2) => some (reorgApply s (reorgFuel s old) (oc1 ++ oc2) (nc1 ++ nc2))
 
 /-- the fork-choice rule of `WriteBlockWithState` -/
 def decideReorg (externTd localTd bnum hnum : Nat) (coin : Bool) : Bool :=
